@@ -124,6 +124,10 @@ def curated():
                      ch(U(130), "bound", 6), ch(0x2AB1, "h_w", 4), ch(0x2AB0, "bound", 2, ["no_read", "notify"]), ch(0x2AB0, "bound", 2)]),
         svc(U(13), [ch(0x2AB0, "bound", 2), ch(None, "bound", 2), ch(0x2AB2, "bound", 1, name="named", descs=[(0x2904, bytes(7))])]),
     ], mtu=23))
+    # 13. write queue smaller than one maximum sized prepare write (a single request can be refused on an empty queue)
+    D.append(decl("small_queue", [
+        svc(0x18D0, [ch(0x2AD0, "bound", 100, ["notify"]), ch(0x2AD1, "bound", 60), ch(0x2AD2, "bound", 20), ch(0x2AD3, "hb_rw", 80)]),
+    ], mtu=100, wq=40))
     # 12. no gap service, tiny server
     D.append(decl("tiny_nogap", [svc(0x18C0, [ch(0x2AC0, "bound", 1)])], gap=False))
     return D
@@ -220,7 +224,7 @@ def random_decl(seed, idx):
     # included services must exist: indexes refer to earlier services only (already the case)
     name = r.choice([None, None, "S", "Bluetoe verif", "abcdefghijklmnopqrstuvwxyz0123456789ABCD"])
     d = decl("rand_%d_%d" % (seed, idx), services,
-             mtu=r.choice([None, 23, 24, 27, 48, 65, 100, 158, 247]), wq=r.choice([None, 32, 64, 255]),
+             mtu=r.choice([None, 23, 24, 27, 48, 65, 100, 158, 247]), wq=r.choice([None, 24, 32, 64, 255]),
              enc=r.choice([None, None, None, "req", "may", "no"]), server_name=name,
              appearance=r.choice([None, 0x0040, 0x0341]), adv_appearance=r.random() < 0.4, gap=r.random() < 0.85,
              cccd_cb=r.random() < 0.5, interval=r.choice([None, None, (0x0006, 0x0C80), (0xFFFF, 0xFFFF), (0x0010, 0x0020)]))
